@@ -89,6 +89,7 @@ type WorkerOut struct {
 	Runs        int               `json:"runs"`
 	Aborted     int               `json:"aborted"`
 	AbortKinds  map[string]int    `json:"abort_kinds"`
+	AbortedIdx  []int             `json:"aborted_idx,omitempty"`
 	Nontrivial  []string          `json:"nontrivial_hashes"`
 	AllHashes   int               `json:"all_hashes"`
 	Stats       map[string]int    `json:"stats"`
@@ -228,6 +229,13 @@ func Main(t *testing.T, e Engine) {
 			break
 		}
 		res := RunOne(t, e, cfg, sc)
+		if os.Getenv("VERIF_DUMP") != "" {
+			b, _ := json.Marshal(sc)
+			fmt.Fprintf(os.Stderr, "RUN %d aborted=%q scenario=%s\n", idx, res.Aborted, b)
+			for _, l := range res.Log {
+				fmt.Fprintln(os.Stderr, "  | "+l)
+			}
+		}
 		out.Runs++
 		out.Events += res.Events
 		out.SimSeconds += res.SimTime.Seconds()
@@ -237,6 +245,9 @@ func Main(t *testing.T, e Engine) {
 		if res.Aborted != "" {
 			out.Aborted++
 			out.AbortKinds[res.Aborted]++
+			if len(out.AbortedIdx) < 20 {
+				out.AbortedIdx = append(out.AbortedIdx, idx)
+			}
 		}
 		all[res.SchedHash] = true
 		if res.Nontrivial && !seen[res.SchedHash] {
